@@ -63,14 +63,14 @@ mutual
       have h2 := compileAlt_mono env (e' :: es) ok ko false false
         (compile env e st.label pd pmk { st with label := st.label + 1 }).st
       simp only [compileAlt]; simp at h1 h2 ⊢; omega
-  theorem compileCases_mono (env : CEnv) : ∀ (ks : List (List Sym)) (es : List Expr) (sw i done : Nat) (st : CSt),
+  theorem compileCases_mono (env : CEnv) : ∀ (ks : List KeySet) (es : List Expr) (sw i done : Nat) (st : CSt),
       st.label ≤ (compileCases env ks es sw i done st).st.label
     | ks, [], sw, i, done, st => by simp [compileCases]
     | ks, [e], sw, i, done, st => by simpa [compileCases] using compile_mono env e done false false st
     | ks, e :: e' :: es, sw, i, done, st => by
-      have h1 := compile_mono env e done (!env.dry) (!env.dry && decide ((ks.headD []).length > 1)) st
+      have h1 := compile_mono env e done (!env.dry) (!env.dry && decide ((ks.headD []).card > 1)) st
       have h2 := compileCases_mono env ks.tail (e' :: es) sw (i + 1) done
-        (compile env e done (!env.dry) (!env.dry && decide ((ks.headD []).length > 1)) st).st
+        (compile env e done (!env.dry) (!env.dry && decide ((ks.headD []).card > 1)) st).st
       simp only [compileCases]; omega
 end
 
